@@ -81,6 +81,19 @@ CLAIMED["C07"] = {
     "technique": "Coq proof (exact arithmetic, routing) + decision extraction tie + crash-isolated differential runs",
 }
 
+CLAIMED["C08"] = {
+    "text": "Coq theorems over a tree model of quantize() (Model/Module.v), for EVERY module tree, nesting depth, filter and configuration: the module at any non-root path of the quantized tree is the image of the module at the same path of the original, the image keeps identity and children names and changes kind exactly when selected and eligible (Linear, Conv2d; LayerNorm only with quantized activations), named_modules() lists the same names in the same order. Tie: the registry read from the @register_qmodule decorators, the arguments each qcreate mirrors, the loop of quantize() and quantize_module(), and AST fingerprints of 20 module methods, re-read on every run. Random trees (containers, 12 layer kinds, Conv2d / LayerNorm hyper-parameter space, filters, shared instances) are quantized for real: structure is compared with the Coq model's evaluation, identity field by field, and every replaced leaf is run against its float twin on float and pre-quantized inputs.",
+    "note": "Trusted: Coq kernel + vm_compute; gen_mod.py extractor; the abstraction 'identity' (hyper-parameters, parameter bits, dtype, device) is checked by the audit, not modelled; the twin equality is decided by the audit under C07's accumulation bound (the forward of a module is torch's convolution / layer_norm, MODELLED only through its float twin). Theorems are axiom-free. Known findings F17 (eligible root), F14/F23 (shared with C07), F28 (parameterless LayerNorm in half precision before calibration).",
+    "design": "6/C08",
+    "technique": "Coq proof over tree model + extracted-facts tie + vm_compute correspondence on random trees + float-twin audit",
+}
+CLAIMED["C09"] = {
+    "text": "Coq theorems: for any weight state (float or frozen) and any deterministic quantization function, freeze preserves the weights the forward pass uses, is idempotent, and stays so after any number of further freezes; along ANY history of forwards / freezes / moves / copies / reloads the output class only depends on the calibration epoch and frozen is absorbing; the packed payload built on construction takes exactly ceil(rows*bits/8)*(numel/rows) bytes for every shape (over the pack code regenerated from the source). Tie: the qweight property (axis 0, module group size and optimizer, frozen weight returned as is) and the freeze body are read from the source on every run. Random life-cycle histories on runnable models compare outputs bit for bit around every step, hash every tensor before / after freeze and deepcopy, and measure payload / scale / zero-point storage of every frozen weight.",
+    "note": "Trusted: Coq kernel + vm_compute; gen_mod.py / gen_c04.py; determinism of quantize_weight (C13's purity) is a hypothesis of the life-cycle theorems, exercised by the audit. Only the cpu device exists here: cross-device moves are not executed. Theorems are axiom-free.",
+    "design": "6/C09",
+    "technique": "Coq proof over life-cycle model + extracted-facts tie + bit-exact history runs",
+}
+
 NOT_YET = {}
 
 
